@@ -55,6 +55,16 @@ func (lfs liveFenceSwitches) Close() {
 	}
 }
 
+// Detach leaves the Lua states of the WHEREEVAL clauses with a fence that
+// outlives the command (a hook, a channel or a live connection). They do not
+// go back to the pool, where the next script would run on a state the fence
+// still evaluates its clauses on, and they keep their ARGV.
+func (lfs liveFenceSwitches) Detach() {
+	for _, whereeval := range lfs.whereevals {
+		whereeval.c.luapool.Forget()
+	}
+}
+
 func (lfs liveFenceSwitches) usingLua() bool {
 	return len(lfs.whereevals) > 0
 }
@@ -519,7 +529,13 @@ func (s *Server) cmdNearby(msg *Message) (res resp.Value, err error) {
 	wr := &bytes.Buffer{}
 	sargs, err := s.cmdSearchArgs(false, "nearby", vs, nearbyTypes)
 	if sargs.usingLua() {
-		defer sargs.Close()
+		defer func() {
+			if _, live := err.(liveFenceSwitches); live {
+				sargs.Detach()
+			} else {
+				sargs.Close()
+			}
+		}()
 		defer func() {
 			if r := recover(); r != nil {
 				res = NOMessage
@@ -624,7 +640,13 @@ func (s *Server) cmdWITHINorINTERSECTS(cmd string, msg *Message) (res resp.Value
 	wr := &bytes.Buffer{}
 	sargs, err := s.cmdSearchArgs(false, cmd, vs, withinOrIntersectsTypes)
 	if sargs.usingLua() {
-		defer sargs.Close()
+		defer func() {
+			if _, live := err.(liveFenceSwitches); live {
+				sargs.Detach()
+			} else {
+				sargs.Close()
+			}
+		}()
 		defer func() {
 			if r := recover(); r != nil {
 				res = NOMessage
